@@ -725,7 +725,7 @@ var rR23 = RuleRef{Name: "R23", Doc: "single path into the state machine in clus
 	}
 	c.Add("R23", "first-party", "executors are invoked only through the dispatcher table", token.NoPos, len(stray) == 0, strings.Join(stray, "; "))
 	// the apply loop is started exactly once
-	ap := c.P.Func("server", "handleClusterCommits")
+	ap := c.applyLoop()
 	starts := 0
 	var others []string
 	for _, fn := range c.P.allFuncs(firstPartyPkgs...) {
